@@ -1,6 +1,8 @@
 import Zc.Proofs.History
 import Zc.Proofs.Packetize
 import Zc.Proofs.Transmit
+import Zc.Proofs.RespScope
+import Zc.GenFacts.FnRegistry
 /-! # C03 — the responder answers exactly what is registered, minus what the querier knows
 
 Model: `Zc.Registry` (`_services/registry.py`, with the D3 repair), `Zc.Svc` (the record builders and memo
@@ -30,9 +32,13 @@ theorem C03_registry_refines (ops : List RegOp) :
     ∧ (Registry.run lower ettl ops).services.map Svc.clearMemo = RegSpec.run lower ops :=
   ⟨(run_spec lower ettl ops).inv, (run_spec lower ettl ops).refines⟩
 
-/-- After any history, any further operation returns normally — except `register` of a name that is
-registered, which raises `ServiceNameAlreadyRegistered` and changes nothing.  (No `KeyError`/`ValueError`
-from the index bookkeeping, whatever the history.) -/
+/-- After any history, any further operation **on `ServiceInfo` objects that have a server** returns normally — except
+`register` of a name that is registered, which raises `ServiceNameAlreadyRegistered` and changes nothing.  (No
+`KeyError`/`ValueError` from the index bookkeeping, whatever the history.)  The quantifier is the model's: `Svc.server : String`,
+i.e. what `set_server_if_missing` guarantees on the `async_register_service` / `async_unregister_service` paths.  `_add`'s
+`assert info.server_key is not None` is a raise site *outside* this model: `async_update_service` does not call
+`set_server_if_missing`, and `registry.async_update` with a server-less info raises `AssertionError` after `_remove` has dropped
+the registered service (finding D26, reproduced and driven on the simulated host by the harness). -/
 theorem C03_only_already_registered (ops : List RegOp) (op : RegOp) :
     (∃ r, (Registry.run lower ettl ops).stepE lower ettl op = .ok r)
     ∨ (∃ s, op = .register s ∧ (∃ o ∈ RegSpec.run lower ops, lower o.name = lower s.name)
@@ -99,7 +105,9 @@ include hi hm
 
 /-- Soundness: every record offered is — exactly, with the configured TTL, spelling and cache-flush bit — a
 record of a registered service that answers one of the questions, and (NSEC aside) the querier does not list
-it only with more than half of that TTL. -/
+it only with more than half of that TTL.  (For the type-enumeration pointer nothing is configured: its rdata is the
+lower-cased type and its TTL the responder's `ettl`.)  `knownOf msgs` is the list the suppression looks at; how it relates
+to the querier's list on the wire is the subject of the section on D25 below. -/
 theorem C03_answers_sound {d : DictRS} {reg' : Registry} (h : respond lower ettl reg msgs = .ok (some d, reg')) :
     ∀ a ∈ keysOf d, RespSpec.soundAnswer lower ettl reg.services (questionsOf msgs) (knownOf msgs) a = true := by
   rcases respond_ok lower ettl hi msgs with ⟨_, hr⟩ | ⟨_, hr⟩
@@ -113,7 +121,7 @@ theorem C03_answers_sound {d : DictRS} {reg' : Registry} (h : respond lower ettl
     unfold RespSpec.soundAnswer
     rw [Bool.and_eq_true, List.any_eq_true]
     refine ⟨⟨q, hq, ?_⟩, ?_⟩
-    · rw [List.any_eq_true]; exact ⟨s, hs, List.contains_iff_mem.mpr hc⟩
+    · rw [List.any_eq_true]; exact ⟨s, hs, List.contains_iff_mem.mpr (mem_candidatesS_of_mem lower ettl hc)⟩
     · rcases hk with hk | hk
       · simp [hk]
       · cases hn : RespSpec.isNsec a
@@ -349,6 +357,133 @@ example : (match respond id 4500 (Registry.run id 4500 [.register exX, .query qS
            | .ok (none, _) => true
            | _ => false) = true := by decide
 
+/-! ## "minus records the querier lists": the list on the wire versus the list the suppression sees (defect D25)
+
+The theorems above speak about `knownOf msgs`, the records `_answer_question` is given.  A query received on an IPv6 socket is
+parsed with the socket's scope id on every AAAA record (`Model/RespScope.lean`); the scope id is not on the wire, the
+responder's own records never carry one, and identity compares it.  `respondQ unscopes` is `async_response` on packets as the
+listener delivers them; `unscopes = id` is the code with the D25 repair (own records are compared with the known answers
+without scope ids), `unscopes = fun _ => false` the code as shipped, `treeUnscopes` (translated leaves) the tree at hand. -/
+
+/-- **full strength**: soundness and completeness with respect to the querier's list *as it is on the wire* -/
+def C03_known_on_wire (unscopes : Bool → Bool) : Prop :=
+  ∀ reg : Registry, IndexInv lower reg → AllFresh lower reg → ∀ ps : List QPkt, WellStamped ps →
+    ∀ o reg', respondQ unscopes lower ettl reg ps = .ok (o, reg') →
+      (∀ a ∈ (o.getD []).map (·.1),
+          RespSpec.soundAnswer lower ettl reg.services (questionsOf (ps.map (·.msg))) (wireKnown ps) a = true)
+      ∧ RespSpec.completePerService lower ettl reg.services (questionsOf (ps.map (·.msg))) (wireKnown ps) ((o.getD []).map (·.1)) = true
+
+/-- the repaired code meets it -/
+theorem C03_known_on_wire_repaired : C03_known_on_wire lower ettl id := by
+  intro reg hi hm ps hw o reg' h
+  unfold respondQ at h
+  have hk := knownOf_ownView_repaired hw
+  have hq := questionsOf_ownView id ps
+  constructor
+  · intro a ha
+    cases o with
+    | none => simp at ha
+    | some d =>
+      have := C03_answers_sound lower ettl hi hm (ownView id ps) h a (by simpa [keysOf] using ha)
+      rw [hk, hq] at this
+      exact this
+  · have := C03_answers_complete_per_service lower ettl hi hm (ownView id ps) h
+    rw [hk, hq] at this
+    exact this
+
+/-- … and so does any tree **for queries outside D25's input class** (`NoScopedKnownOfOwn`: no known answer that carries a scope
+id is, without it, a record of a registered service) — in particular every query received on an IPv4 socket.  `_partial`:
+missing for full strength on the code as shipped is exactly that class (`C03_known_on_wire_shipped_refuted`). -/
+theorem C03_known_on_wire_partial (unscopes : Bool → Bool) {reg : Registry} (hi : IndexInv lower reg) (hm : AllFresh lower reg)
+    (ps : List QPkt) (hn : NoScopedKnownOfOwn lower ettl reg.services ps)
+    {o : Option DictRS} {reg' : Registry} (h : respondQ unscopes lower ettl reg ps = .ok (o, reg')) :
+    (∀ a ∈ (o.getD []).map (·.1),
+        RespSpec.soundAnswer lower ettl reg.services (questionsOf (ps.map (·.msg))) (wireKnown ps) a = true)
+    ∧ RespSpec.completePerService lower ettl reg.services (questionsOf (ps.map (·.msg))) (wireKnown ps) ((o.getD []).map (·.1)) = true := by
+  unfold respondQ at h
+  have hq := questionsOf_ownView unscopes ps
+  have hk := knownOf_ownView unscopes ps
+  have hs : ∀ a ∈ (o.getD []).map (·.1),
+      RespSpec.soundAnswer lower ettl reg.services (questionsOf (ps.map (·.msg))) (knownOf (ownView unscopes ps)) a = true := by
+    intro a ha
+    cases o with
+    | none => simp at ha
+    | some d =>
+      have := C03_answers_sound lower ettl hi hm (ownView unscopes ps) h a (by simpa [keysOf] using ha)
+      rw [hq] at this
+      exact this
+  have hc := C03_answers_complete_per_service lower ettl hi hm (ownView unscopes ps) h
+  rw [hq] at hc
+  cases hu : unscopes (lastScoped ps)
+  · rw [hu] at hk
+    simp only [Bool.false_eq_true, if_false] at hk
+    rw [hk] at hs hc
+    exact ⟨fun a ha => soundAnswer_congr lower ettl (fun s hsm r hr => ((sup_wire_eq lower ettl hn hsm hr).2).symm) (hs a ha),
+           completePerService_congr lower ettl (fun s hsm r hr => ((sup_wire_eq lower ettl hn hsm hr).1).symm) hc⟩
+  · rw [hu] at hk
+    simp only [if_true] at hk
+    rw [hk] at hs hc
+    exact ⟨hs, hc⟩
+
+/-- the working tree is one of the two (whichever: the statement builds on both) -/
+theorem C03_tree_unscopes : (∀ b, treeUnscopes b = b) ∨ (∀ b, treeUnscopes b = false) := by
+  first
+    | (left; intro b; cases b <;> rfl)
+    | (right; intro b; cases b <;> rfl)
+
+/-- D25's witness: `y._b._tcp` on `h1.local.` with the address fe80::2; `AAAA h1.local.?` listing exactly that record with its full
+TTL, received on an IPv6 socket (scope id 3) -/
+def d25Query : List QPkt :=
+  [{ msg := { isProbe := false, questions := [⟨"h1.local.", 28, 1, false⟩],
+              answers := [⟨"h1.local.", 28, 1, true, 120, 0, .addr [0xfe, 0x80, 0, 0, 0, 0, 0, 0, 0, 0, 0, 0, 0, 0, 0, 2] (some 3)⟩] },
+     hasScope := true }]
+
+/-- the responder's own record for that address -/
+def d25Aaaa : Rec := ⟨"h1.local.", 28, 1, true, 120, 0, .addr [0xfe, 0x80, 0, 0, 0, 0, 0, 0, 0, 0, 0, 0, 0, 0, 0, 2] none⟩
+
+theorem d25Query_wellStamped : WellStamped d25Query := by
+  constructor
+  · intro p hp; simp [d25Query] at hp; subst hp; rfl
+  · intro p hp hf; simp [d25Query] at hp; subst hp; simp at hf
+
+/-- the code as shipped offers the AAAA record although the querier lists it with its full TTL -/
+theorem C03_known_on_wire_shipped_refuted : ¬ C03_known_on_wire id 4500 (fun _ => false) := by
+  intro h
+  have hr := h (Registry.run id 4500 [.register exY]) (C03_registry_refines id 4500 _).1
+    (fun s hs => C03_memo_fresh id 4500 _ s hs (by
+      have : dirty id [RegOp.register exY] = [] := by decide
+      rw [this]; simp))
+    d25Query d25Query_wellStamped
+  have h2 : (match respondQ (fun _ => false) id 4500 (Registry.run id 4500 [.register exY]) d25Query with
+             | .ok (some d, _) => d.map (·.1)
+             | _ => []) = [d25Aaaa] := by decide
+  have hf : RespSpec.soundAnswer id 4500 (Registry.run id 4500 [.register exY]).services
+      (questionsOf (d25Query.map (·.msg))) (wireKnown d25Query) d25Aaaa = false := by decide
+  cases hres : respondQ (fun _ => false) id 4500 (Registry.run id 4500 [.register exY]) d25Query with
+  | error e => rw [hres] at h2; simp at h2
+  | ok p =>
+    obtain ⟨o, reg'⟩ := p
+    cases o with
+    | none => rw [hres] at h2; simp at h2
+    | some d =>
+      rw [hres] at h2
+      simp only at h2
+      have hs := (hr (some d) reg' hres).1 d25Aaaa (by simp [h2])
+      rw [hf] at hs
+      exact Bool.false_ne_true hs
+
+/-- non-vacuity of `NoScopedKnownOfOwn`: the same question listing the record *without* a scope id (an IPv4 socket), and a
+scoped known answer for an address nobody registered, are inside the hypothesis; the witness is exactly what it excludes -/
+example :
+    NoScopedKnownOfOwn id 4500 (Registry.run id 4500 [.register exY]).services
+      [{ msg := { isProbe := false, questions := [⟨"h1.local.", 28, 1, false⟩],
+                  answers := [⟨"h1.local.", 28, 1, true, 120, 0, .addr [0xfe, 0x80, 0, 0, 0, 0, 0, 0, 0, 0, 0, 0, 0, 0, 0, 2] none⟩,
+                              ⟨"h1.local.", 28, 1, true, 120, 0, .addr [0xfe, 0x80, 0, 0, 0, 0, 0, 0, 0, 0, 0, 0, 0, 0, 0, 9] (some 3)⟩] },
+         hasScope := true }]
+    ∧ ¬ NoScopedKnownOfOwn id 4500 (Registry.run id 4500 [.register exY]).services d25Query := by
+  unfold NoScopedKnownOfOwn
+  constructor <;> decide
+
 /-! ## the last clause at the wire: replies transmitted after an update (finding D20)
 
 `C03_history` speaks about the value `async_response` returns.  Most multicast replies are not sent at once but queued
@@ -393,21 +528,96 @@ theorem C03_transmitted_current_refuted : ¬ C03_transmitted_current id 4500 := 
   rw [hown] at this
   exact Bool.false_ne_true this
 
-/-- **the part that holds**: if at every `update` / `unregister` no pending reply holds a record that only the changed
-service owns (`noReplyQueuedForChanged` — the negation of D20's signature; for `unregister` the D5 repair purges such
-records, which is C08's theorem), then every datagram ever sent consists of records of services registered at that
-instant. -/
-theorem C03_transmitted_current_partial (ops : List HostOp) (hq : noReplyQueuedForChanged lower ettl {} ops = true) :
+/-- **the part that holds** (`_partial`): for every history none of whose operations is in the input class of D20, D20b or D20c
+(`noSupersededReplyQueued`, evaluated operation by operation:
+* at `update s` — every pending record *of the service `s` replaces* is still a record of a registered service afterwards (D20 is
+  exactly the negation: a queued record that the update supersedes);
+* at `unregister` — every type-enumeration pointer, and with a shared host every address / NSEC record of the withdrawn service,
+  that is still pending **after the purge** is a record of a service that stays registered (D20b, D20c);
+* attribute writes come as `update`, as in `C03_transmitted_current`)
+every datagram ever sent consists of records of services registered at that instant.  The proof shows that the records
+`async_unregister_service` purges (`purgeMap`: PTR, SRV, TXT, and the address/NSEC set of an unshared host) are gone from every
+pending reply — without the D5 purge the theorem is false.  Missing for full strength: exactly the three recorded findings. -/
+theorem C03_transmitted_current_partial (ops : List HostOp) (hq : noSupersededReplyQueued lower ettl {} ops = true) :
     ∀ o ∈ (RHost.run lower ettl ops).2, Sent.current lower ettl o = true :=
   runFrom_spec lower ettl ops (PendInv.init lower ettl) hq
 
-/-- non-vacuity of the hypothesis: the same exchange with the queue flushed before the update satisfies it and sends two
-datagrams; the witness of the refutation is exactly what it excludes -/
+def qPtrA : List Msg := [{ isProbe := false, questions := [⟨"_a._tcp.local.", 12, 1, false⟩], answers := [] }]
+
+/-- non-vacuity of the hypothesis, and its exactness on the benign histories the earlier, broader hypothesis rejected:
+the exchange with the queue flushed before the update; **a PTR reply pending at the unregister of its service** (the purge empties
+it, nothing is sent); **a no-op update with a reply pending**; an update of the port while only the PTR is pending — all inside;
+the witness of the refutation is outside -/
 example :
-    noReplyQueuedForChanged id 4500 {} [.api (.register exX), .api (.query qTxtSrvX), .transmit,
+    noSupersededReplyQueued id 4500 {} [.api (.register exX), .api (.query qTxtSrvX), .transmit,
         .api (.update { exX with port := 81 }), .api (.query qTxtSrvX), .transmit] = true
     ∧ (RHost.run id 4500 [.api (.register exX), .api (.query qTxtSrvX), .transmit,
         .api (.update { exX with port := 81 }), .api (.query qTxtSrvX), .transmit]).2.length = 2
-    ∧ noReplyQueuedForChanged id 4500 {} d20Ops = false := by decide
+    ∧ noSupersededReplyQueued id 4500 {} [.api (.register exX), .api (.query qPtrA), .api (.unregister ["x._a._tcp.local."]), .transmit] = true
+    ∧ (RHost.run id 4500 [.api (.register exX), .api (.query qPtrA), .api (.unregister ["x._a._tcp.local."]), .transmit]).2.length = 0
+    ∧ noSupersededReplyQueued id 4500 {} [.api (.register exX), .api (.query qTxtSrvX), .api (.update exX), .transmit] = true
+    ∧ (RHost.run id 4500 [.api (.register exX), .api (.query qTxtSrvX), .api (.update exX), .transmit]).2.length = 1
+    ∧ noSupersededReplyQueued id 4500 {} d20Ops = false := by decide
+
+/-- D20b and D20c are outside too: an enumeration answer pending when the last service of its type is withdrawn; an A answer
+pending when one of two services on the host is withdrawn (its NSEC additional and its address record at its own TTL stay) -/
+example :
+    noSupersededReplyQueued id 4500 {} [.api (.register exX),
+        .api (.query [{ isProbe := false, questions := [⟨"_services._dns-sd._udp.local.", 12, 1, false⟩], answers := [] }]),
+        .api (.unregister ["x._a._tcp.local."]), .transmit] = false
+    ∧ noSupersededReplyQueued id 4500 {} [.api (.register exX), .api (.register exY),
+        .api (.query [{ isProbe := false, questions := [⟨"h1.local.", 28, 1, false⟩], answers := [] }]),
+        .api (.unregister ["y._b._tcp.local."]), .transmit] = false := by decide
+
+/-! ## Tie: the source of `_services/registry.py`, translated statement by statement on every run
+
+`Zc.GenFn.Registry` is regenerated from the *bodies* of all methods of `ServiceRegistry` (`tools/gen_fn.py`);
+`GenFacts/FnRegistry.lean` proves, method by method and under the representation invariant `RInv` (which every mutator
+preserves), that the hand-written `Registry` model above computes what those bodies compute.  Hence the registry
+theorems hold of the translated source itself, and an edit of a method body breaks a named lemma of `FnRegistry` at
+stage P. -/
+section Tie
+open Zc.Py Zc.GenFn.Registry Zc.GenFacts.FnRegistry
+
+/-- **The model's registry is the translated code's, along every history of API calls.**  After any sequence of
+`async_add` / `async_remove` / `async_update` calls on a fresh `ServiceRegistry` (a call that raises leaves the registry as it
+was) the four fields of the generated object are those of `Registry.run` on the same calls, and the dicts are well formed. -/
+theorem C03_registry_is_source (ops : List ROp) :
+    absR (gRun lower ops) = Registry.run lower ettl (ops.map (toRegOp lower)) ∧ RInv lower (gRun lower ops) :=
+  gRun_eq lower ettl ops
+
+/-- **D3 for the translated code: no empty bucket is ever advertised.**  After any history of API calls, every type the
+generated `async_get_types` enumerates has a service that the generated `async_get_service_infos` returns. -/
+theorem C03_no_empty_bucket_source (ops : List ROp) :
+    ∀ t ∈ (gRun lower ops).async_get_types, ∃ s ∈ (gRun lower ops).async_get_service_infos, lower s.type = t := by
+  intro t ht
+  have h := (gRun_eq lower 0 ops).1
+  rw [async_get_types_eq, h] at ht
+  rw [async_get_service_infos_eq, h]
+  obtain ⟨s, hs, hst⟩ := (C03_no_empty_bucket lower 0 (ops.map (toRegOp lower))).1 t ht
+  rw [← (C03_registry_refines lower 0 (ops.map (toRegOp lower))).2] at hs
+  obtain ⟨s0, hs0, rfl⟩ := List.mem_map.1 hs
+  exact ⟨s0, hs0, hst⟩
+
+/-- **The look-ups of the translated code** return exactly the registered services of that type / host, in registration
+order, and never raise, after any history. -/
+theorem C03_lookups_source (ops : List ROp) (k : String) :
+    (gRun lower ops).async_get_infos_type k = .ok ((gRun lower ops).async_get_service_infos.filter (fun s => lower s.type = k))
+    ∧ (gRun lower ops).async_get_infos_server k = .ok ((gRun lower ops).async_get_service_infos.filter (fun s => lower s.server = k)) := by
+  have h := gRun_eq lower 0 ops
+  have hl := C03_lookups lower 0 (ops.map (toRegOp lower)) k
+  rw [async_get_infos_type_eq lower _ k h.2, async_get_infos_server_eq lower _ k h.2, async_get_service_infos_eq, h.1]
+  exact ⟨hl.1, hl.2.1⟩
+
+/-- non-vacuity: register two services of one type, unregister both — the type bucket is gone (D3), the generated look-up
+is empty -/
+example :
+    (gRun id [.add exX, .add { exX with name := "z._a._tcp.local." }, .remove [exX], .remove [{ exX with name := "z._a._tcp.local." }]]).async_get_types = []
+    ∧ ((gRun id [.add exX, .add { exX with name := "z._a._tcp.local." }, .remove [exX]]).async_get_infos_type "_a._tcp.local.").toOption
+        = some [{ exX with name := "z._a._tcp.local." }]
+    ∧ (gRun id [.add exX, .add exX, .remove [exX]]).has_entries = false := by
+  decide
+
+end Tie
 
 end Zc
